@@ -1177,6 +1177,11 @@ func runCase(idx int, r *gen.Rand, work string, rec *crashfs.Recorder, quick boo
 }
 
 func main() {
+	if len(os.Args) > 4 && os.Args[1] == "colretry" {
+		idx, _ := strconv.Atoi(os.Args[2])
+		runColRetry(idx, filepath.Join(os.Getenv("VERIF_WORK"), "c03"))
+		return
+	}
 	if len(os.Args) > 4 && os.Args[1] == "colchild" {
 		// child process of spawnColCase: colchild <idx> <seed> <seglimit 0|1>
 		idx, _ := strconv.Atoi(os.Args[2])
